@@ -633,15 +633,32 @@ func h3(p *Prog, o *obls) {
 		checkSite := func(fn *ssa.Function, at ssa.Instruction) {
 			held := la.info[fn].before[at]
 			// closed test on the false branch
-			closedOK := false
-			for _, f := range dominatingFactsInstr(at) {
-				f = normFact(f)
-				if c, ok := f.cond.(*ssa.Call); ok && !f.truth {
-					if sc := c.Call.StaticCallee(); sc != nil && isClosedPredicate(p, sc, isLifecycle) {
-						closedOK = true
+			// … at this call, or — when the function is only reached through calls the analysis sees — at every call of
+			// it (the per-packet body of WriteRTCP moved into a helper that the gated loop calls)
+			var closedAt func(fn *ssa.Function, at ssa.Instruction, depth int) bool
+			closedAt = func(fn *ssa.Function, at ssa.Instruction, depth int) bool {
+				for _, f := range dominatingFactsInstr(at) {
+					f = normFact(f)
+					if c, ok := f.cond.(*ssa.Call); ok && !f.truth {
+						if sc := c.Call.StaticCallee(); sc != nil && isClosedPredicate(p, sc, isLifecycle) {
+							return true
+						}
 					}
 				}
+				if depth >= 3 || !la.internal[fn] || len(la.sites[fn]) == 0 {
+					return false
+				}
+				for _, up := range la.sites[fn] {
+					if _, isGo := up.(*ssa.Go); isGo {
+						return false
+					}
+					if !closedAt(up.Parent(), up, depth+1) {
+						return false
+					}
+				}
+				return true
 			}
+			closedOK := closedAt(fn, at, 0)
 			lockOK := false
 			for _, cs := range s.cs {
 				ch := la.info[cs.fn].before[cs.call]
